@@ -41,6 +41,13 @@ CHECKS["C11"] = dict(
     note="Relative oracle: a validation boundary moved consistently in setter and validator is (correctly) not reported here - that is C01/C14. Trusts the probe builder (exported struct fields, container codec) and the observation function.",
     ref="DESIGN.md §4 C11")
 
+CHECKS["C18"] = dict(
+    engine="W-OBS",
+    technique=TECH + "observation snapshots (public API only) of every pool object before / after every read-side call and every buffer overwrite; twin objects observed in opposite orders; fresh-Evidence-per-key reference for Verify verdicts",
+    text="Seeded exploration of read-only histories over pools of claims-sets and Evidence objects in assorted states (built valid/invalid, decoded from genuine or structurally damaged and re-signed CBOR/JSON/COSE messages, signing and decoded Evidence) with values shared across objects and profiles: every read-side call is made twice back to back and compared with its earlier results, is also made as the very first call on a fresh twin, and after every step every object of the pool is re-observed in a rotating order; the channel that owns the receive buffers zeroes, scrambles or reuses them after decoding and nothing observable (including Verify verdicts under 13 keys and nil) may move.",
+    note="Observation is through getters, Validate class, CBOR/JSON bytes and Verify verdicts, not reflection: unobservable internal changes are not reported. Trusts the observation function and the deterministic signing wrappers.",
+    ref="DESIGN.md §4 C18")
+
 NA = {
     "C01": "pure predicate of one claims-set: no history, fault, schedule or seam can change the verdict; deciding it needs an independent model over a value-class product space (input enumeration), which is not this technique",
     "C04": "CBOR acceptance/fidelity is a pure function of the input bytes, decided by an independent encoder over value classes; nothing for a scheduler or fault injector to own",
@@ -53,7 +60,7 @@ NA = {
     "C20": "envelope acceptance is a pure function of the input bytes, decided by enumerating envelope shapes with an independent encoder",
 }
 
-PENDING = {k: "claimed in DESIGN.md; its check is still under construction in this session and is therefore not registered yet" for k in ["C05","C06","C07","C16","C17","C18"]}
+PENDING = {k: "claimed in DESIGN.md; its check is still under construction in this session and is therefore not registered yet" for k in ["C05","C06","C07","C16","C17"]}
 
 def main():
     checks = []
